@@ -628,8 +628,9 @@ func (vc *VC) havocTargets(st, pre *State, envPre *Env, tgts []Target, key strin
 		vc.decl["§"+comp] = u.sort
 		vc.closed(nw, comp, u.sort, st.allocTop)
 	}
-	// objects allocated by the callee may have any content in every component: that is only
-	// relevant for components we did not list; fresh objects are unreachable from the old heap.
+	// objects allocated by the callee may have any content in every component; whatever it is, it refers only to
+	// objects that exist after the call
+	vc.closeAll(st)
 	vc.assumeGlobals(st)
 	return nil
 }
